@@ -51,28 +51,33 @@ CONSTANTS
                \*          shared through an Arc (Shared = TRUE, no clone op, no sender count), no ended flag / stop(),
                \*          recv() = lock, pop, closed? | notified(), is_empty && !closed ? await; Receiver::drop closes
   CMax,        \* "chan": the consumer drops the receiver after CMax recv() calls (0 = it goes on until end-of-stream)
+  NCons,       \* 1 or 2 consumer threads calling recv() on the same track (recv takes &self; "chan": &mut self, so 1)
+  CCancel,     \* how often a consumer may drop its pending recv() future (only possible at the await) and call again
   Deviations
 
 VARIABLES
   head, tail, slot,            \* ring indices; slot[i]: 0 uninit, s > 0 holds sample s, -s moved-out copy of s
   plock, poplock,              \* owner of the producer lock / pop lock (0 = free)
   closed, ended, active, arc,  \* source_closed, track ended, active_senders, Arc strong count of the shared handle
-  permit, gen, waiting, cgen,  \* Notify: stored permit, notify_waiters generation, consumer registered, generation seen by notified()
+  permit, gen, waiting, cgen,  \* Notify: stored permit, notify_waiters generation, registered waiters (oldest first), generation seen by
+  wby,                         \* each consumer's notified(); how a sleeping consumer was woken ("one" / "all"): a Notified dropped after
+                               \* notify_one reached it passes the notification on (next waiter, else a permit)
   pc, loc,                     \* per thread: label, locals
   created, freed, dropped,     \* ghost: payload buffers allocated / freed; samples legitimately discarded (overflow, rejected)
   received, cres,              \* ghost: samples returned by recv() in order; last recv() result
   err, torn, stopped,          \* ghost: memory errors; teardown done; stop() has started
   who                          \* last thread that stepped (bookkeeping, not part of the state identity)
 
-C == 100                       \* consumer thread
+C == 100                       \* (first) consumer thread
 S == 200                       \* stopper thread
 Prods == DOMAIN Prog
-Procs == Prods \cup {C} \cup (IF UseStop THEN {S} ELSE {})
+Cons  == IF NCons = 2 THEN {C, C + 1} ELSE {C}
+Procs == Prods \cup Cons \cup (IF UseStop THEN {S} ELSE {})
 
 ringv  == <<head, tail, slot>>
 lockv  == <<plock, poplock>>
 srcv   == <<closed, ended, active, arc>>
-notv   == <<permit, gen, waiting, cgen>>
+notv   == <<permit, gen, waiting, cgen, wby>>
 ghostv == <<created, freed, dropped, received, cres, err, torn, stopped>>
 vars   == <<ringv, lockv, srcv, notv, pc, loc, ghostv, who>>
 view   == <<ringv, lockv, srcv, notv, pc, loc, ghostv>>
@@ -94,12 +99,12 @@ Init ==
   /\ closed = FALSE /\ ended = FALSE
   /\ active = (IF Shared THEN 1 ELSE Cardinality(Prods))
   /\ arc = (IF Shared THEN Cardinality(Prods) ELSE 0)
-  /\ permit = FALSE /\ gen = 0 /\ waiting = FALSE /\ cgen = 0
+  /\ permit = FALSE /\ gen = 0 /\ waiting = <<>> /\ cgen = [c \in Cons |-> 0] /\ wby = [c \in Cons |-> ""]
   /\ pc = [p \in Procs |-> IF p \in Prods /\ Len(Prog[p]) = 0
                            THEN (IF p \in NoDrop THEN "done" ELSE "h_release") ELSE "call"]
   /\ loc = [p \in Procs |-> [Loc0 EXCEPT !.hmode = IF Shared THEN "arc" ELSE "own",
                                          !.fin = (p \in Prods /\ Len(Prog[p]) = 0)]]
-  /\ created = {} /\ freed = {} /\ dropped = {} /\ received = <<>> /\ cres = "none"
+  /\ created = {} /\ freed = {} /\ dropped = {} /\ received = <<>> /\ cres = [c \in Cons |-> "none"]
   /\ err = {} /\ torn = FALSE /\ stopped = FALSE
   /\ who = 0
 
@@ -121,11 +126,19 @@ FreeAnd(X, E) ==
   /\ freed' = freed \cup Y
   /\ err' = err \cup E \cup (IF Y \cap freed # {} THEN {"double_free"} ELSE {})
 
-NotifyOne ==
-  IF waiting THEN waiting' = FALSE /\ UNCHANGED <<permit, gen, cgen>>
-  ELSE permit' = TRUE /\ UNCHANGED <<waiting, gen, cgen>>
+InSeq(x, q) == \E i \in 1..Len(q) : q[i] = x
+Without(q, x) == SelectSeq(q, LAMBDA y : y # x)
+Asleep(c) == InSeq(c, waiting)                 \* registered and not yet notified
+
+\* wake the oldest registered waiter, or store one permit
+NotifyOneFrom(q) ==
+  IF q # <<>> THEN waiting' = Tail(q) /\ wby' = [wby EXCEPT ![Head(q)] = "one"] /\ UNCHANGED <<permit, gen, cgen>>
+  ELSE waiting' = q /\ permit' = TRUE /\ UNCHANGED <<gen, cgen, wby>>
+NotifyOne == NotifyOneFrom(waiting)
 NotifyWaiters ==
-  /\ waiting' = FALSE /\ gen' = gen + 1 /\ UNCHANGED <<permit, cgen>>
+  /\ waiting' = <<>> /\ gen' = gen + 1
+  /\ wby' = [c \in Cons |-> IF Asleep(c) THEN "all" ELSE wby[c]]
+  /\ UNCHANGED <<permit, cgen>>
 
 \* where a producer goes when the current API call returns with result r (locals record lr)
 \* send_many keeps iterating inside the same call while samples are left.
@@ -276,7 +289,7 @@ PopLh(p) ==
 PopLt(p) ==
   /\ pc[p] = "pop_lt"
   /\ IF L(p).ph = tail
-     THEN IF p = C THEN /\ SetLoc(p, [L(p) EXCEPT !.pt = tail, !.eos = (Chan /\ ClosedFirst /\ L(p).cl)])
+     THEN IF p \in Cons THEN /\ SetLoc(p, [L(p) EXCEPT !.pt = tail, !.eos = (Chan /\ ClosedFirst /\ L(p).cl)])
                         /\ Goto(p, IF ~ClosedFirst THEN "r_closed"
                                    ELSE IF L(p).cl /\ ~Chan THEN "r_setended" ELSE "r_unlock")
                    ELSE SetLoc(p, [L(p) EXCEPT !.pt = tail, !.phase = 1]) /\ Goto(p, "push_lt")
@@ -297,7 +310,7 @@ PopR(p) ==
 PopSh(p) ==
   /\ pc[p] = "pop_sh"
   /\ head' = L(p).ph + 1
-  /\ IF p = C
+  /\ IF p \in Cons
      THEN /\ Goto(p, "r_unlock") /\ UNCHANGED <<loc, freed, err, dropped>>
      ELSE /\ Free({L(p).got}) /\ dropped' = dropped \cup {L(p).got}      \* let _ = self.queue.pop();
           /\ SetLoc(p, [L(p) EXCEPT !.got = 0, !.phase = 1]) /\ Goto(p, "push_lt")
@@ -348,109 +361,125 @@ DropNotify(p) ==
   /\ UNCHANGED <<ringv, lockv, srcv, ghostv>>
 
 ---------------------------------------------------------------------------
-(* consumer: SampleStreamTrack::recv *)
+(* consumer c: SampleStreamTrack::recv *)
 
 LoopTop == IF Chan THEN "r_lock" ELSE IF NotifBefore THEN "r_create" ELSE "r_ended"
 
-CRet(r) ==
-  /\ cres' = r
-  /\ Goto(C, IF r = "eos" THEN "done" ELSE "call")
+CRet(c, r) ==
+  /\ cres' = [cres EXCEPT ![c] = r]
+  /\ Goto(c, IF r = "eos" THEN "done" ELSE "call")
 
-\* L(C).k counts the recv() calls made so far
-CCall ==
-  /\ pc[C] = "call"
-  /\ IF Chan /\ CMax > 0 /\ L(C).k = CMax
-     THEN Goto(C, "rdrop_close") /\ UNCHANGED loc                         \* drop(receiver)
-     ELSE Goto(C, LoopTop) /\ SetLoc(C, [L(C) EXCEPT !.got = 0, !.eos = FALSE, !.cl = FALSE, !.k = @ + 1])
+\* L(c).k counts the recv() calls made so far, L(c).phase the futures dropped
+CCall(c) ==
+  /\ pc[c] = "call"
+  /\ IF Chan /\ CMax > 0 /\ L(c).k = CMax
+     THEN Goto(c, "rdrop_close") /\ UNCHANGED loc                         \* drop(receiver)
+     ELSE Goto(c, LoopTop) /\ SetLoc(c, [L(c) EXCEPT !.got = 0, !.eos = FALSE, !.cl = FALSE, !.k = @ + 1])
   /\ UNCHANGED <<ringv, lockv, srcv, notv, ghostv>>
 
 \* Drop for SampleQueueReceiver
-RDropClose ==
-  /\ pc[C] = "rdrop_close"
-  /\ closed' = TRUE /\ Goto(C, "rdrop_notify")
+RDropClose(c) ==
+  /\ pc[c] = "rdrop_close"
+  /\ closed' = TRUE /\ Goto(c, "rdrop_notify")
   /\ UNCHANGED <<ringv, lockv, ended, active, arc, notv, loc, ghostv>>
 
-RDropNotify ==
-  /\ pc[C] = "rdrop_notify"
-  /\ NotifyWaiters /\ Goto(C, "done")
+RDropNotify(c) ==
+  /\ pc[c] = "rdrop_notify"
+  /\ NotifyWaiters /\ Goto(c, "done")
   /\ UNCHANGED <<ringv, lockv, srcv, loc, ghostv>>
 
 \* let notified = self.notify.notified();
-RCreate ==
-  /\ pc[C] = "r_create"
-  /\ cgen' = gen /\ Goto(C, IF Chan THEN "empty" ELSE "r_ended")
-  /\ UNCHANGED <<ringv, lockv, srcv, permit, gen, waiting, loc, ghostv>>
+RCreate(c) ==
+  /\ pc[c] = "r_create"
+  /\ cgen' = [cgen EXCEPT ![c] = gen] /\ Goto(c, IF Chan THEN "empty" ELSE "r_ended")
+  /\ UNCHANGED <<ringv, lockv, srcv, permit, gen, waiting, wby, loc, ghostv>>
 
-REnded ==
-  /\ pc[C] = "r_ended"
-  /\ IF ended THEN CRet("eos") ELSE Goto(C, "r_lock") /\ UNCHANGED cres
+REnded(c) ==
+  /\ pc[c] = "r_ended"
+  /\ IF ended THEN CRet(c, "eos") ELSE Goto(c, "r_lock") /\ UNCHANGED cres
   /\ UNCHANGED <<ringv, lockv, srcv, notv, loc, created, freed, dropped, received, err, torn, stopped>>
 
-RLock ==
-  /\ pc[C] = "r_lock" /\ poplock = 0
-  /\ poplock' = C /\ Goto(C, IF ClosedFirst THEN "r_closed" ELSE "pop_lh")
+RLock(c) ==
+  /\ pc[c] = "r_lock" /\ poplock = 0
+  /\ poplock' = c /\ Goto(c, IF ClosedFirst THEN "r_closed" ELSE "pop_lh")
   /\ UNCHANGED <<ringv, plock, srcv, notv, loc, ghostv>>
 
 \* self.source_closed.load(): before pop() (every push happens before the close, so "closed, then
 \* empty" means drained), or -- pinned tree -- after pop() returned None
-RClosed ==
-  /\ pc[C] = "r_closed"
+RClosed(c) ==
+  /\ pc[c] = "r_closed"
   /\ IF ClosedFirst
-     THEN Goto(C, "pop_lh") /\ SetLoc(C, [L(C) EXCEPT !.cl = closed])
-     ELSE /\ Goto(C, IF closed /\ ~Chan THEN "r_setended" ELSE "r_unlock")
-          /\ SetLoc(C, [L(C) EXCEPT !.eos = (Chan /\ closed)])               \* "chan": return None
+     THEN Goto(c, "pop_lh") /\ SetLoc(c, [L(c) EXCEPT !.cl = closed])
+     ELSE /\ Goto(c, IF closed /\ ~Chan THEN "r_setended" ELSE "r_unlock")
+          /\ SetLoc(c, [L(c) EXCEPT !.eos = (Chan /\ closed)])               \* "chan": return None
   /\ UNCHANGED <<ringv, lockv, srcv, notv, ghostv>>
 
-RSetEnded ==
-  /\ pc[C] = "r_setended"
+RSetEnded(c) ==
+  /\ pc[c] = "r_setended"
   /\ ended' = TRUE
-  /\ IF poplock = C
-     THEN Goto(C, "r_unlock") /\ SetLoc(C, [L(C) EXCEPT !.eos = TRUE]) /\ UNCHANGED cres
-     ELSE CRet("eos") /\ UNCHANGED loc
+  /\ IF poplock = c
+     THEN Goto(c, "r_unlock") /\ SetLoc(c, [L(c) EXCEPT !.eos = TRUE]) /\ UNCHANGED cres
+     ELSE CRet(c, "eos") /\ UNCHANGED loc
   /\ UNCHANGED <<ringv, lockv, closed, active, arc, notv, created, freed, dropped, received, err, torn, stopped>>
 
 \* the pop guard goes out of scope: with a sample (return Ok), after setting ended (return EOS), or to wait
-RUnlock ==
-  /\ pc[C] = "r_unlock"
+RUnlock(c) ==
+  /\ pc[c] = "r_unlock"
   /\ poplock' = 0
-  /\ IF L(C).got # 0
-     THEN /\ received' = Append(received, L(C).got)
-          /\ Free({L(C).got})                                 \* the harness checks and drops the sample
-          /\ SetLoc(C, [L(C) EXCEPT !.got = 0])
-          /\ CRet("ok")
-     ELSE IF L(C).eos
-     THEN CRet("eos") /\ UNCHANGED <<loc, received, freed, err>>
-     ELSE Goto(C, IF Chan THEN "r_create" ELSE "r_await") /\ UNCHANGED <<loc, received, freed, err, cres>>
+  /\ IF L(c).got # 0
+     THEN /\ received' = Append(received, L(c).got)
+          /\ Free({L(c).got})                                 \* the harness checks and drops the sample
+          /\ SetLoc(c, [L(c) EXCEPT !.got = 0])
+          /\ CRet(c, "ok")
+     ELSE IF L(c).eos
+     THEN CRet(c, "eos") /\ UNCHANGED <<loc, received, freed, err>>
+     ELSE Goto(c, IF Chan THEN "r_create" ELSE "r_await") /\ UNCHANGED <<loc, received, freed, err, cres>>
   /\ UNCHANGED <<ringv, plock, srcv, notv, created, dropped, torn, stopped>>
 
 AfterAwait == IF Chan THEN "r_lock" ELSE "r_recheck"
 
 \* notified.await -- first poll (the pinned code also creates the future here)
-RAwait ==
-  /\ pc[C] = "r_await"
-  /\ IF NotifBefore /\ gen # cgen
-     THEN Goto(C, AfterAwait) /\ UNCHANGED notv
+RAwait(c) ==
+  /\ pc[c] = "r_await"
+  /\ IF NotifBefore /\ gen # cgen[c]
+     THEN Goto(c, AfterAwait) /\ UNCHANGED notv
      ELSE IF permit
-     THEN Goto(C, AfterAwait) /\ permit' = FALSE /\ cgen' = gen /\ UNCHANGED <<gen, waiting>>
-     ELSE Goto(C, "c_sleep") /\ waiting' = TRUE /\ cgen' = gen /\ UNCHANGED <<permit, gen>>
+     THEN Goto(c, AfterAwait) /\ permit' = FALSE /\ cgen' = [cgen EXCEPT ![c] = gen] /\ UNCHANGED <<gen, waiting, wby>>
+     ELSE /\ Goto(c, "c_sleep") /\ waiting' = Append(waiting, c) /\ cgen' = [cgen EXCEPT ![c] = gen]
+          /\ wby' = [wby EXCEPT ![c] = ""] /\ UNCHANGED <<permit, gen>>
   /\ UNCHANGED <<ringv, lockv, srcv, loc, ghostv>>
 
 \* the waker fired; the future is polled again and completes
-CSleep ==
-  /\ pc[C] = "c_sleep" /\ ~waiting
-  /\ Goto(C, AfterAwait)
-  /\ UNCHANGED <<ringv, lockv, srcv, notv, loc, ghostv>>
+CSleep(c) ==
+  /\ pc[c] = "c_sleep" /\ ~Asleep(c)
+  /\ Goto(c, AfterAwait)
+  /\ wby' = [wby EXCEPT ![c] = ""]
+  /\ UNCHANGED <<ringv, lockv, srcv, permit, gen, waiting, cgen, loc, ghostv>>
+
+\* The caller drops the pending recv() future (select!, timeout): possible only at the await. Dropping a Notified that
+\* is still registered removes it; dropping one that notify_one already reached passes the notification on.
+Cancel(c) ==
+  /\ pc[c] = "c_sleep" /\ L(c).phase < CCancel
+  /\ IF Asleep(c)
+     THEN waiting' = Without(waiting, c) /\ UNCHANGED <<permit, gen, cgen, wby>>
+     ELSE IF wby[c] = "one"
+     THEN IF waiting # <<>>
+          THEN waiting' = Tail(waiting) /\ wby' = [wby EXCEPT ![Head(waiting)] = "one", ![c] = ""] /\ UNCHANGED <<permit, gen, cgen>>
+          ELSE permit' = TRUE /\ wby' = [wby EXCEPT ![c] = ""] /\ UNCHANGED <<waiting, gen, cgen>>
+     ELSE wby' = [wby EXCEPT ![c] = ""] /\ UNCHANGED <<permit, gen, waiting, cgen>>
+  /\ Goto(c, "call") /\ SetLoc(c, [L(c) EXCEPT !.phase = @ + 1])
+  /\ UNCHANGED <<ringv, lockv, srcv, ghostv>>
 
 \* if self.source_closed.load() && self.queue.is_empty() {
-RRecheck ==
-  /\ pc[C] = "r_recheck"
-  /\ Goto(C, IF closed THEN "empty" ELSE LoopTop)
+RRecheck(c) ==
+  /\ pc[c] = "r_recheck"
+  /\ Goto(c, IF closed THEN "empty" ELSE LoopTop)
   /\ UNCHANGED <<ringv, lockv, srcv, notv, loc, ghostv>>
 
 \* track: `closed && is_empty()`; chan: `is_empty() && !closed.load()` then await (one step, see the header)
-Empty ==
-  /\ pc[C] = "empty"
-  /\ Goto(C, IF Chan THEN (IF head = tail /\ ~closed THEN "r_await" ELSE LoopTop)
+Empty(c) ==
+  /\ pc[c] = "empty"
+  /\ Goto(c, IF Chan THEN (IF head = tail /\ ~closed THEN "r_await" ELSE LoopTop)
              ELSE IF head = tail THEN "r_setended" ELSE LoopTop)
   /\ UNCHANGED <<ringv, lockv, srcv, notv, loc, ghostv>>
 
@@ -476,8 +505,8 @@ StopNotify ==
 (* teardown: every thread is finished (or the consumer sleeps for good); the harness cancels the  *)
 (* pending recv(), drops the remaining handles and the track; SpscRing::drop frees what is queued *)
 
-OthersDone == \A p \in Procs \ {C} : pc[p] = "done"
-Quiescent  == OthersDone /\ (pc[C] = "done" \/ (pc[C] = "c_sleep" /\ waiting))
+OthersDone == \A p \in Procs \ Cons : pc[p] = "done"
+Quiescent  == OthersDone /\ \A c \in Cons : pc[c] = "done" \/ (pc[c] = "c_sleep" /\ Asleep(c))
 
 Teardown ==
   /\ Quiescent /\ ~torn
@@ -498,22 +527,24 @@ ProdStep(p) ==
   \/ (p \in Prods /\ (PopLh(p) \/ PopLt(p) \/ PopR(p) \/ PopSh(p)))
   \/ CloneAdd(p) \/ HRelease(p) \/ DropSub(p) \/ DropClose(p) \/ DropNotify(p)
 
-ConsStep ==
-  \/ CCall \/ RCreate \/ REnded \/ RLock \/ PopLh(C) \/ PopLt(C) \/ PopR(C) \/ PopSh(C)
-  \/ RClosed \/ RSetEnded \/ RUnlock \/ RAwait \/ CSleep \/ RRecheck \/ Empty \/ RDropClose \/ RDropNotify
+ConsStep(c) ==
+  \/ CCall(c) \/ RCreate(c) \/ REnded(c) \/ RLock(c) \/ PopLh(c) \/ PopLt(c) \/ PopR(c) \/ PopSh(c)
+  \/ RClosed(c) \/ RSetEnded(c) \/ RUnlock(c) \/ RAwait(c) \/ CSleep(c) \/ RRecheck(c) \/ Empty(c)
+  \/ RDropClose(c) \/ RDropNotify(c)
 
 StopStep == SCall \/ StopStore \/ StopNotify
 
 PStep(p) == ProdStep(p) /\ who' = p
-CStep    == ConsStep /\ who' = C
+CStep(c) == ConsStep(c) /\ who' = c
+XStep(c) == Cancel(c) /\ who' = c + 1000          \* the caller's decision, not a step of recv(): no fairness
 SStep    == UseStop /\ StopStep /\ who' = S
 TStep    == Teardown /\ who' = 0
 
-Next == (\E p \in Prods : PStep(p)) \/ CStep \/ SStep \/ TStep
+Next == (\E p \in Prods : PStep(p)) \/ (\E c \in Cons : CStep(c) \/ XStep(c)) \/ SStep \/ TStep
 
 Spec == Init /\ [][Next]_vars
         /\ \A p \in Prods : WF_vars(PStep(p))
-        /\ WF_vars(CStep) /\ WF_vars(SStep) /\ WF_vars(TStep)
+        /\ (\A c \in Cons : WF_vars(CStep(c))) /\ WF_vars(SStep) /\ WF_vars(TStep)
 
 ---------------------------------------------------------------------------
 (* Properties of C20 *)
@@ -525,7 +556,8 @@ TypeOK ==
   /\ \A i \in 0..Cap-1 : slot[i] \in Int
   /\ plock \in Prods \cup {0} /\ poplock \in Procs \cup {0}
   /\ closed \in BOOLEAN /\ ended \in BOOLEAN /\ active \in Nat /\ arc \in Nat
-  /\ permit \in BOOLEAN /\ waiting \in BOOLEAN /\ gen \in Nat /\ cgen \in Nat
+  /\ permit \in BOOLEAN /\ gen \in Nat /\ \A c \in Cons : cgen[c] \in Nat
+  /\ \A i \in 1..Len(waiting) : waiting[i] \in Cons
   /\ created \subseteq Samples /\ freed \subseteq Samples /\ dropped \subseteq Samples
 
 \* Slot ownership windows: between the decision "not full" / "not empty" and the publishing store
@@ -555,10 +587,12 @@ RecvSet == {received[i] : i \in RecvIdx}
 
 \* end-of-stream without stop(): the source is closed, the queue is drained and every pushed sample was
 \* either received or discarded by the documented overflow / rejection paths
+\* (a second consumer may still be holding the sample it has just popped)
+InHand == {loc[c].got : c \in Cons} \ {0}
 DrainThenEos ==
-  (cres = "eos" /\ ~stopped) =>
+  ((\E c \in Cons : cres[c] = "eos") /\ ~stopped) =>
      /\ closed /\ head = tail
-     /\ created = RecvSet \cup dropped
+     /\ created = RecvSet \cup dropped \cup InHand
      /\ RecvSet \cap dropped = {}
 
 \* payload buffers: never freed twice; all freed once everything (incl. the ring) is dropped
@@ -567,12 +601,13 @@ NoLeakNoDoubleFree ==
   /\ torn => freed = created
 
 \* lost wake-up, as a state predicate: nobody is left who could wake the sleeping consumer
-NoLostWakeup     == (OthersDone /\ closed /\ pc[C] = "c_sleep") => ~waiting
-NoLostWakeupStop == (OthersDone /\ ended  /\ pc[C] = "c_sleep") => ~waiting          \* EXT: stop()
+NoLostWakeup     == \A c \in Cons : (OthersDone /\ closed /\ pc[c] = "c_sleep") => ~Asleep(c)
+NoLostWakeupStop == \A c \in Cons : (OthersDone /\ ended  /\ pc[c] = "c_sleep") => ~Asleep(c)      \* EXT: stop()
 
 \* ... and as liveness under weak fairness
-CloseLeadsToEos == closed ~> (cres = "eos")
-StopLeadsToEos  == ended ~> (cres = "eos")                                             \* EXT: stop()
+\* (a consumer that keeps dropping its future is bounded by CCancel, so it calls recv() again in the end)
+CloseLeadsToEos == \A c \in Cons : closed ~> (cres[c] = "eos")
+StopLeadsToEos  == \A c \in Cons : ended ~> (cres[c] = "eos")                          \* EXT: stop()
 Terminates      == <>torn
 
 \* locks are held by whoever is inside the section
